@@ -437,6 +437,59 @@ func runC03(c C03Case, o *run.Obs) error {
 		}
 	}
 	if c.TwoStores && len(cw.t.Model) > 0 {
+		// an S3 service that keeps refusing some uploads (throttling, time-outs, internal errors, dropped connections - on every
+		// attempt): whatever the store does about it, a MakeRoot that reports success has a complete version in the bucket
+		client := env.NewMiniS3()
+		var mu sync.Mutex
+		order := map[string]int{}
+		from, only := len(c.Base)%5, (len(c.Base)/5)%2 == 0
+		perr := env.S3PutErrs[(len(c.Base)/10)%len(env.S3PutErrs)]
+		client.FailPut = func(key string, attempt int) error {
+			mu.Lock()
+			defer mu.Unlock()
+			i, ok := order[key]
+			if !ok {
+				i = len(order)
+				order[key] = i
+			}
+			if i == from || (!only && i > from) {
+				return perr
+			}
+			return nil
+		}
+		st := s3persist.NewPersist(client, "https://s3.example", "bucket", "n/")
+		var m *mast.Mast
+		if err := core.Safely("LoadMast", func() error {
+			var e error
+			m, e = w.NewRoot().LoadMast(core.Ctx, w.RemoteConfig(&st, nil))
+			return e
+		}); err == nil {
+			t := &core.Tree{M: m, Model: core.Model{}}
+			ok := true
+			for _, ki := range cw.t.Model.Keys() {
+				if err := w.Insert(t, ki, cw.t.Model[ki]); err != nil {
+					ok = false
+					break
+				}
+			}
+			var r *mast.Root
+			var mkErr error
+			if ok && core.Safely("MakeRoot", func() error { r, mkErr = m.MakeRoot(core.Ctx); return nil }) == nil {
+				if mkErr == nil && r != nil {
+					if _, err := core.ReachableIn(c.Cfg, core.RootOf(*r).Link, func(name string) ([]byte, bool) {
+						b, err := st.Load(core.Ctx, name)
+						return b, err == nil
+					}); err != nil {
+						return fmt.Errorf("[%s] S3 store whose service refuses upload #%d%s on every attempt (%v): MakeRoot returned success but the version is not complete in the bucket: %w", c.Cfg, from, map[bool]string{true: "", false: " and all later ones"}[only], perr, err)
+					}
+					o.Label("s3-refusing-uploads:success-and-complete")
+				} else {
+					o.Label("s3-refusing-uploads:reported")
+				}
+			}
+		}
+	}
+	if c.TwoStores && len(cw.t.Model) > 0 {
 		// twin flushes: two clones get the same changes (hence identical unsaved nodes) and are persisted at the same
 		// time into the same store; the FIRST write of one of the shared new nodes to arrive is held until the other
 		// flush's write of that node arrives too (or a moment has passed) and then fails. Whichever MakeRoot reports
